@@ -221,6 +221,8 @@ fn gen_c04(r: &mut Prng, i: u64, _t: Tier) -> Plan {
     for e in &mut p.eps {
         e.stream_buf = *r.pick(&[1usize, 2, 16]);
     }
+    // a slow (but never absent) acceptor
+    p.accept_pace = *r.pick(&[0usize, 0, 3, 12]);
     let n = 1 + r.below(3);
     for _ in 0..n {
         let mut s = gen_stream(r, &BURST);
